@@ -4,7 +4,7 @@ Used by props c05/c06 through the hook `source_ties` of runner.proof_stage.  Ret
 import os, re, subprocess, shutil, time, difflib
 from . import coqrun, py2coq_body
 
-LEMMAS = ['tcut_src_eq', 'loc_src_eq', 'comp_src_eq', 'comp_src_eq_source', 'control_correct_src', 'comp_src_total']
+LEMMAS = ['compile_expression_src_eq', 'compile_unification_src_eq', 'tcut_src_eq', 'loc_src_eq', 'comp_src_eq', 'comp_src_eq_source', 'control_correct_src', 'comp_src_total']
 TEMPLATE = os.path.join(coqrun.COQ, 'tie', 'CompileBodyTie.v.in')
 EXPECTED = os.path.join(coqrun.COQ, 'tie', 'CompileBodySrc.expected.v')
 
@@ -54,11 +54,17 @@ def check(pid='tie'):
         else:
             why = out.strip()[-1500:] if r.returncode != 0 else ('forbidden words %s / lemmas missing %s / assumptions not closed' % (gate, missing))
             m = re.search(r'\(in proof ([A-Za-z0-9_\']+)\)', out)
+            lemma = m.group(1) if m else None
+            ml = re.search(r'line (\d+), characters', out)
+            if lemma is None and ml:       # the statement that contains the reported line
+                upto = (text + '\n' + tpl).split('\n')[:int(ml.group(1))]
+                names = re.findall(r'^\s*(?:Lemma|Corollary|Theorem|Example|Fixpoint|Definition)\s+([A-Za-z0-9_\']+)', '\n'.join(upto), re.M)
+                lemma = names[-1] if names else None
             diff = _diff(text)
             info['coqc'] = why
             info['diff_against_last_good'] = diff
             problems.append(('source-tie', 'the definition generated from the source is no longer proved equal to the model (lemma %s; coq/tie/CompileBodyTie.v.in): %s%s'
-                             % (m.group(1) if m else '?', why, ('\n--- change of the generated definition ---\n' + diff) if diff else '')))
+                             % (lemma or '?', why, ('\n--- change of the generated definition ---\n' + diff) if diff else '')))
     finally:
         shutil.rmtree(d, ignore_errors=True)
     info['wall_s'] = round(time.time() - t0, 2)
